@@ -109,4 +109,9 @@ theorem C15_accepted_or_untouched_at_every_step (pre : List Ajson.Proofs.Edit) (
       (∃ er, e.outcome (pre.foldl Ajson.Proofs.Edit.run h) = .err er ∧ e.run (pre.foldl Ajson.Proofs.Edit.run h) = pre.foldl Ajson.Proofs.Edit.run h) :=
   Ajson.Proofs.history_settled (pre ++ e :: post) pre e post h hs ha hn rfl
 
+/-- `SetNode` — on ANY heap, receiver and argument: accepted, or rejected by the loop guard with the heap exactly as before; and
+`Clone()` has no failure mode at all (it returns a node, never an error) -/
+theorem C15_set_node_accepted_or_untouched (h : Heap) (n v : Nat) :
+    Ajson.Proofs.Settled h (h.setNode n v).2 (h.setNode n v).1 := Ajson.Proofs.setNode_settled h n v
+
 end Ajson.Props.C15
